@@ -116,6 +116,8 @@ func checkSkip(h *hz.H, b []byte) (bool, bool) {
 	return true, false
 }
 
+func tagBytesC15(n protowire.Number, t protowire.Type) []byte { return protowire.AppendTag(nil, n, t) }
+
 func boundaries() []uint64 {
 	var out []uint64
 	seen := map[uint64]bool{}
@@ -342,6 +344,53 @@ func runC15(h *hz.H) {
 			h.DistinctN(int64(hi - lo))
 		})
 	}
+	// 8. Skip: well-formed groups whose body is every sequence of <= 3 member records (varints, fixed
+	// widths, length-delimited members of lengths 0,1,2,3,4,7,8,127,128, empty and non-empty inner groups),
+	// at nesting depth 1 and 2, alone and followed by trailing bytes.
+	var members [][]byte
+	members = append(members, protowire.AppendVarint(tagBytesC15(1, protowire.VarintType), 1), protowire.AppendVarint(tagBytesC15(2, protowire.VarintType), 300),
+		protowire.AppendFixed32(tagBytesC15(1, protowire.Fixed32Type), 7), protowire.AppendFixed64(tagBytesC15(2, protowire.Fixed64Type), 7))
+	for _, n := range []int{0, 1, 2, 3, 4, 7, 8, 127, 128} {
+		members = append(members, protowire.AppendBytes(tagBytesC15(protowire.Number(2+n%2), protowire.BytesType), bytes.Repeat([]byte{0x78}, n)))
+	}
+	members = append(members, append(tagBytesC15(3, protowire.StartGroupType), tagBytesC15(3, protowire.EndGroupType)...))
+	inner := tagBytesC15(4, protowire.StartGroupType)
+	inner = protowire.AppendBytes(append(inner, tagBytesC15(1, protowire.BytesType)...), []byte{1, 2})
+	inner = append(inner, tagBytesC15(4, protowire.EndGroupType)...)
+	members = append(members, inner)
+	nm := uint64(len(members))
+	var groupN int64
+	for l := 0; l <= 3; l++ {
+		total := uint64(1)
+		for i := 0; i < l; i++ {
+			total *= nm
+		}
+		l := l
+		h.ParChunks(total, 256, fmt.Sprintf("skip structured groups with %d members", l), func(lo, hi uint64) {
+			for i := lo; i < hi; i++ {
+				body := []byte{}
+				j := i
+				for p := 0; p < l; p++ {
+					body = append(body, members[j%nm]...)
+					j /= nm
+				}
+				g1 := append(append(tagBytesC15(9, protowire.StartGroupType), body...), tagBytesC15(9, protowire.EndGroupType)...)
+				g2 := append(append(tagBytesC15(10, protowire.StartGroupType), g1...), tagBytesC15(10, protowire.EndGroupType)...)
+				for _, g := range [][]byte{g1, g2, append(append([]byte{}, g1...), 0x18, 0x0c), append(append([]byte{}, g2...), 0xff)} {
+					if _, wf := checkSkip(h, g); wf {
+						wellFormed.Add(1)
+					} else {
+						h.InternalError(fmt.Sprintf("structured group %x is not accepted by protowire", g))
+					}
+				}
+			}
+			h.EvalN(int64(hi-lo) * 4)
+			h.DistinctN(int64(hi-lo) * 4)
+			atomic.AddInt64(&groupN, int64(hi-lo)*4)
+		})
+	}
+	h.Rep.Bounds["skip_structured_groups"] = groupN
+	h.Sample(map[string]interface{}{"kind": "skip-structured-group", "bytes_hex": "4b1203787878" + "1a0178" + "4c"})
 	h.Sample(map[string]interface{}{"kind": "skip-tokens", "bytes_hex": "0b0affffffffffffffff7f"})
 	h.Sample(map[string]interface{}{"kind": "skip", "bytes_hex": hex.EncodeToString(g)})
 	h.Sample(map[string]interface{}{"kind": "skip", "bytes_hex": "0b0c"})
